@@ -859,9 +859,11 @@ def handleC02 (op : String) (args : List Sexp) : Option Ans :=
            | .ok out =>
              (match ClassRead.read out with
               | .ok (raw, []) =>
-                (match raw.resolve with
-                 | some t' => if t'.toSexp.toStr == t.toSexp.toStr then .ok (tag "pass") else .ok (list [tag "fail", tag "differs"])
-                 | none => .ok (list [tag "fail", tag "dangling"]))
+                -- both sides with their labels resolved (`ClassFacts.resolve`): label ids as instruction indices
+                (match raw.resolve, t.resolve with
+                 | some t', some t0 =>
+                   if t'.toSexp.toStr == t0.toSexp.toStr then .ok (tag "pass") else .ok (list [tag "fail", tag "differs"])
+                 | _, _ => .ok (list [tag "fail", tag "dangling"]))
               | _ => .ok (list [tag "fail", tag "reread"]))
            | .error .err => .ok (tag "out-of-domain")
            | .error .panic => .ok (list [tag "fail", tag "panic"]))
